@@ -26,7 +26,7 @@ func c08alphabets() map[string][]c08op {
 			{"A.sess.Delete(s1)", A, func(n *dnode) { n.st.SessionMetadatas().Delete("s1") }},
 			{"B.sess.Create(s1)", B, func(n *dnode) { n.st.SessionMetadatas().Create("s1", "c-B", 1, nil, "m") }},
 			{"B.sess.Delete(s1)", B, func(n *dnode) { n.st.SessionMetadatas().Delete("s1") }},
-			{"A.sess.Create(s2)", A, func(n *dnode) { n.st.SessionMetadatas().Create("s2", "d-A", 1, nil, "m") }},
+			{"A.sess.Create(s2)", A, func(n *dnode) { n.st.SessionMetadatas().Create("s2", "", 1, nil, "m") }},
 			{"B.sess.Delete(s2)", B, func(n *dnode) { n.st.SessionMetadatas().Delete("s2") }},
 		},
 		"subscriptions": {
